@@ -264,7 +264,8 @@ CasesQuick(z) == {c \in FitCases(DOMAIN PointSets, 1..48, {Zero3, <<1, 0, 0>>}) 
                    \cup {c \in AffineCases({1, 4, 11, 20, 31, 46}, ToSet(Forms)) : AffOK(c)}
                    \cup HistCases({5, 26}, 4) \cup {c \in AnchCases({1, 2}, {2, 30}) : AnchOK(c)}
 CasesThorough(z) == {c \in FitCases(DOMAIN PointSets, 1..48, {Zero3, <<1, 0, 0>>, <<0, -2, 1>>, <<3, 3, 3>>}) : FitOK(c)}
-                   \cup {c \in AffineCases(1..48, ToSet(Forms)) : AffOK(c)}
+                   \cup {c \in AffineCases(1..48, {"f32", "i64"}) : AffOK(c)}
+                   \cup {c \in AffineCases({1, 4, 7, 11, 15, 20, 26, 31, 38, 42, 46, 48}, ToSet(Forms)) : AffOK(c)}
                    \cup HistCases({5, 26, 40}, 4) \cup HistCases({5}, 5) \cup {c \in AnchCases({1, 2, 3}, {2, 9, 30, 41}) : AnchOK(c)}
 Cases == CASE Tier = "tiny" -> CasesTiny(0) [] Tier = "quick" -> CasesQuick(0) [] Tier = "thorough" -> CasesThorough(0)
 
